@@ -229,7 +229,7 @@ func runTLS(c Case, cfg script.Config, env *script.Env, res core.Result, v strin
 }
 
 func evaluate(c Case, cfg script.Config, env *script.Env, res core.Result, v string, msgs []pgwire.BMsg, perr error) core.Result {
-	if ps := env.Panics(); len(ps) > 0 {
+	if ps := env.Panics(); len(ps) > 0 && v != "panic" {
 		res.Sig, res.Violation = "C01/panic", "connection goroutine panicked: "+ps[0].Value
 		return res
 	}
